@@ -11,6 +11,8 @@ From Soy Require Import Proofs.RawTextProofs.
 From Soy Require Import Model.Ast Model.Token Model.Lexer Model.Parser Generated.Tables
   Proofs.LexerProofs Proofs.LexBodyText Proofs.LexBodyTop Proofs.ParseBodyText Proofs.BodyTextMain.
 From Soy Require Import Spec.TextBody Proofs.LexTokens Proofs.LexPrintTop Proofs.LexBodyMain Proofs.BodyCmdMain.
+From Soy Require Import Spec.TextMix Proofs.BodyMixMain.
+From Soy Require Import Spec.TextTemplate Proofs.ParserProofs Proofs.BodyTemplateMain.
 Open Scope N_scope.
 
 (* The loop of parse/rawtext.go returns exactly the Spec's normalisation, under
@@ -104,9 +106,8 @@ Proof. vm_compute. reflexivity. Qed.
    ([lexq], [unq], [inlen] -- the nested scanner, strconv.Unquote and the length used for error positions --
    are arbitrary: this path never consults them.)
    PARTIAL with respect to the design's body_text_spec: T is the whole input (so "//" at the very start is a
-   comment) and contains no tag; bodies with the special-character commands are C15_body_special_chars_spec
-   below (comment-free stretches); {literal} blocks and comments next to tags are not covered by a theorem and
-   stay with the rendering check of the harness. *)
+   comment) and contains no tag; the statement for bodies in which comments, special-character commands and
+   {literal} blocks mix is C15_body_text_spec below, and C15_template_body_text_spec for a body inside {template}. *)
 Theorem C15_body_text_spec_partial : forall inlen lexq unq T out,
   plain T -> body_text true T = Some out ->
   exists items pos nodes st,
@@ -154,8 +155,7 @@ Print Assumptions C15_slashes_after_nonspace.
    concatenated, are  normalize T0 ++ char(c1) ++ normalize T1 ++ ... : each stretch normalised as a whole with
    no flagged end, each command giving exactly its character ({nil}: nothing), each literal block its text s
    verbatim (lexLiteral with strings.Index; no normalisation).  Stretches may be empty.
-   NOT covered (the remaining gap to the design's body_text_spec): comments inside a body that also contains
-   tags (comments are covered for bodies without tags: C15_body_text_spec_partial), "{literal }" with spaces. *)
+   Comments inside such a body: C15_body_text_spec below.  NOT covered: "{literal }" with spaces. *)
 Theorem C15_body_special_chars_spec : forall inlen lexq unq T0 rest,
   stretch_ok true T0 -> Forall seg_ok rest ->
   exists items pos nodes st,
@@ -202,6 +202,134 @@ Proof.
     change (normalize false false []) with (@nil N). cbn [app]. apply app_nil_r.
 Qed.
 Print Assumptions C15_literal_exact.
+
+(* ---- body_text_spec: bodies of text, comments, special-character commands and literal blocks ---- *)
+(* For EVERY body  T0 {c1} T1 {c2} ... {cn} Tn  (source: body_src) in which every ci is a special-character command
+   or a {literal} block (cmd_ok, as above) and every stretch Ti consists of plain bytes (no NUL, no brace) and MAY
+   CONTAIN COMMENTS, under the Spec's one condition on their placement (mix_body_ok, Spec/TextMix.v): no "//"
+   comment is still open where a tag begins (line_open = false for every stretch but the last; such a comment
+   would run on through the tag to the end of the line -- C15_ex_line_comment_swallows_tag), and on which the
+   Spec's text is defined (mix_body_out = Some out: every block comment closed, no soydoc opener): the scanner
+   model run on the body as a file (lexText, lexLineComment, lexBlockComment with the look-behind for "//" --
+   at the start of the input a comment, after "}" text --, the tag states, lexLiteral) returns an item list, and
+   the parser model (SoyFile: itemList, textOrTag with its two comment flags whether the neighbour of a piece is a
+   comment, a tag or the end of the input, beginTag's special-character and literal cases, rawtext) run on it under
+   the entry point's own budget returns a list node whose children are all raw-text nodes and whose texts,
+   concatenated, are   body_text true T0 ++ char(c1) ++ body_text false T1 ++ ... :  every stretch cut at its
+   comments, every piece normalised separately with a comment as a flagged end and a tag / the end of the input
+   as an unflagged one.  C15_body_text_spec_partial (no tags) and C15_body_special_chars_spec (no comments) are
+   instances.  What remains outside a theorem: OTHER tags as neighbours of text (print, if, msg ...: their items
+   end a text run the same way, but their parse is not part of this statement) and "{literal }" with spaces. *)
+Theorem C15_body_text_spec : forall inlen lexq unq T0 rest out,
+  mix_body_ok T0 rest -> mix_body_out T0 rest = Some out ->
+  exists items pos nodes st,
+    lex_items is_letter_tbl is_digit_tbl (lex_budget (body_src T0 rest)) false (body_src T0 rest) = Ok items /\
+    po_result (soy_file inlen lexq unq items) = POk (NList pos nodes) st /\
+    Forall is_raw nodes /\ concat (map raw_text_of nodes) = out.
+Proof.
+  intros inlen lexq unq. destruct tables_ascii as [Hl Hd]. destruct tables_eof as [El Ed].
+  exact (body_mix_impl_spec is_letter_tbl is_digit_tbl Hl Hd El Ed inlen lexq unq).
+Qed.
+Print Assumptions C15_body_text_spec.
+
+(* non-vacuity: comments before and after tags, "//" after "}" (text) and at the start of the input (comment), an
+   empty comment, a literal block with comment openers and braces, an open "//" comment in the last stretch *)
+Definition c15_ex_mix : bstr * list seg :=
+  (b "//c" ++ [10] ++ b "a /*c*/",
+   [((b "sp", [32]), b "//t" ++ [10] ++ b " b //c" ++ [10]); ((b "lb", [123]), b "/*x*/ y /**/");
+    ((lit_name (b "//{}"), b "//{}"), b " z //open")]).
+Example C15_ex_body_mix :
+  mix_body_ok (fst c15_ex_mix) (snd c15_ex_mix) /\
+  body_src (fst c15_ex_mix) (snd c15_ex_mix) =
+    b "//c" ++ [10] ++ b "a /*c*/{sp}//t" ++ [10] ++ b " b //c" ++ [10] ++ b "{lb}/*x*/ y /**/{literal}//{}{/literal} z //open" /\
+  mix_body_out (fst c15_ex_mix) (snd c15_ex_mix) = Some (b "a //t b{y//{} z") /\
+  match lex_items is_letter_tbl is_digit_tbl (lex_budget (body_src (fst c15_ex_mix) (snd c15_ex_mix))) false (body_src (fst c15_ex_mix) (snd c15_ex_mix)) with
+  | Ok items =>
+      match po_result (soy_file 0 (fun _ => []) (fun _ => None) items) with
+      | POk (NList _ nodes) _ => Some (concat (map raw_text_of nodes)) = mix_body_out (fst c15_ex_mix) (snd c15_ex_mix)
+      | _ => False
+      end
+  | _ => False
+  end.
+Proof.
+  assert (Hplain : forall s : bstr, forallb (fun c => negb (c =? 0) && negb (c =? 123) && negb (c =? 125)) s = true ->
+                   Forall (fun c => c <> 0 /\ c <> 123 /\ c <> 125) s).
+  { intros s H. apply Forall_forall. intros c Hc. rewrite forallb_forall in H. specialize (H c Hc). lia. }
+  split.
+  { unfold mix_body_ok, c15_ex_mix. cbn [fst snd mix_rest_ok].
+    repeat split; try (apply Hplain; vm_compute; reflexivity); try (intros _; vm_compute; reflexivity); try (intros H; discriminate H).
+    - left. vm_compute. auto 12.
+    - left. vm_compute. auto 12.
+    - right. split; [reflexivity|]. intros r. vm_compute. reflexivity. }
+  split; [vm_compute; reflexivity|]. split; [vm_compute; reflexivity|]. vm_compute. reflexivity.
+Qed.
+
+(* the Spec's condition is needed: a "//" comment that is open where a tag begins runs on through the tag -- the
+   scanner sends ONE comment item for "//x{sp}b", no tag *)
+Example C15_ex_line_comment_swallows_tag :
+  line_open MText true (b "a //x") = true /\
+  match lex_items is_letter_tbl is_digit_tbl (lex_budget (b "a //x{sp}b")) false (b "a //x{sp}b") with
+  | Ok items => map (fun t => (t_typ t, t_val t)) items = [(itemText, b "a"); (itemComment, b "//x{sp}b"); (itemEOF, [])]
+  | _ => False
+  end.
+Proof. split; vm_compute; reflexivity. Qed.
+
+(* ---- text inside {template}: the statement about a whole minimal file ---- *)
+(* For EVERY file   {template .name} T0 {c1} T1 ... {cn} Tn {/template}   (Spec/TextTemplate.v tpl_file) whose template
+   name is an ASCII word, whose ci are special-character commands or {literal} blocks and whose stretches are plain
+   bytes that may contain comments, no "//" comment being open where a tag begins -- here EVERY stretch is followed
+   by a tag, the last one by {/template} (mix_tpl_ok) -- and on which the Spec's text is defined (mix_tpl_out):
+   the scanner model run on the file (the template tag: lexLeftDelim, lexBeginTag, the keyword, the space, the
+   dotted name, "}"; the body as in C15_body_text_spec; "{/template}": lexBeginTag's '/' case and lexIdent's
+   closing-tag lookup; lexText at the end of the input) returns an item list, and the model of parse.SoyFile run
+   on it under the entry point's own budget (itemList -> beginTag -> parseTemplate: the name, parseAttrs on no
+   attribute, parseAutoescape's and boolAttr's defaults, itemList(itemTemplateEnd) one level down over the body,
+   which stops at "{" "/template") returns a file whose one node is a template node whose body's children are all
+   raw-text nodes and whose texts, concatenated, are   body_text false T0 ++ char(c1) ++ body_text false T1 ++ ...
+   (the first stretch follows the "}" of the template tag: a leading "//" is text).  [inlen] is len(text); [lexq]
+   (the nested scanner, never started here) is any scanner with well-formed items; [unq] is arbitrary.  The
+   template's name, autoescape mode and privacy are not part of this statement (existentially quantified). *)
+Theorem C15_template_body_text_spec : forall lexq unq name T0 rest out,
+  lexq_wf lexq -> tpl_name_wf name -> mix_tpl_ok T0 rest -> mix_tpl_out T0 rest = Some out ->
+  exists items pos tp nm ae pv bpos nodes st,
+    lex_items is_letter_tbl is_digit_tbl (lex_budget (tpl_file name T0 rest)) false (tpl_file name T0 rest) = Ok items /\
+    po_result (soy_file (N.of_nat (length (tpl_file name T0 rest))) lexq unq items)
+      = POk (NList pos [NTemplate tp nm (NList bpos nodes) ae pv]) st /\
+    Forall is_raw nodes /\ concat (map raw_text_of nodes) = out.
+Proof.
+  intros lexq unq name T0 rest out Hq. destruct tables_ascii as [Hl Hd]. destruct tables_eof as [El Ed].
+  exact (template_body_impl_spec is_letter_tbl is_digit_tbl Hl Hd El Ed lexq unq Hq name T0 rest out).
+Qed.
+Print Assumptions C15_template_body_text_spec.
+
+Definition c15_ex_tpl : bstr * list seg :=
+  (b "//not a comment" ++ [10] ++ b "  a /*c*/ ", [((b "sp", [32]), b " b //c" ++ [10]); ((lit_name (b "{x}"), b "{x}"), [10] ++ b "  c" ++ [10])]).
+Example C15_ex_template_body :
+  tpl_name_wf (b "main") /\ mix_tpl_ok (fst c15_ex_tpl) (snd c15_ex_tpl) /\
+  tpl_file (b "main") (fst c15_ex_tpl) (snd c15_ex_tpl) =
+    b "{template .main}//not a comment" ++ [10] ++ b "  a /*c*/ {sp} b //c" ++ [10] ++ b "{literal}{x}{/literal}" ++ [10] ++ b "  c" ++ [10] ++ b "{/template}" /\
+  mix_tpl_out (fst c15_ex_tpl) (snd c15_ex_tpl) = Some (b "//not a comment a  b{x}c") /\
+  match lex_items is_letter_tbl is_digit_tbl (lex_budget (tpl_file (b "main") (fst c15_ex_tpl) (snd c15_ex_tpl))) false (tpl_file (b "main") (fst c15_ex_tpl) (snd c15_ex_tpl)) with
+  | Ok items =>
+      match po_result (soy_file (N.of_nat (length (tpl_file (b "main") (fst c15_ex_tpl) (snd c15_ex_tpl)))) (fun _ => []) (fun _ => None) items) with
+      | POk (NList _ [NTemplate _ nm (NList _ nodes) _ _]) _ =>
+          nm = b ".main" /\ Some (concat (map raw_text_of nodes)) = mix_tpl_out (fst c15_ex_tpl) (snd c15_ex_tpl)
+      | _ => False
+      end
+  | _ => False
+  end.
+Proof.
+  assert (Hplain : forall s : bstr, forallb (fun c => negb (c =? 0) && negb (c =? 123) && negb (c =? 125)) s = true ->
+                   Forall (fun c => c <> 0 /\ c <> 123 /\ c <> 125) s).
+  { intros s H. apply Forall_forall. intros c Hc. rewrite forallb_forall in H. specialize (H c Hc). lia. }
+  split; [split; vm_compute; reflexivity|].
+  split.
+  { unfold mix_tpl_ok, c15_ex_tpl. cbn [fst snd]. split; [split; [apply Hplain; vm_compute; reflexivity|intros _; vm_compute; reflexivity]|].
+    constructor; [|constructor; [|constructor]]; cbn [fst snd].
+    - split; [left; vm_compute; auto 12|split; [apply Hplain; vm_compute; reflexivity|intros _; vm_compute; reflexivity]].
+    - split; [right; split; [reflexivity|intros r; vm_compute; reflexivity]|split; [apply Hplain; vm_compute; reflexivity|intros _; vm_compute; reflexivity]]. }
+  split; [vm_compute; reflexivity|]. split; [vm_compute; reflexivity|]. vm_compute. split; reflexivity.
+Qed.
 
 (* non-vacuity: the hypotheses hold of "see http://x y", and scanner + parser models, run by computation on a
    text with both kinds of comment, give the Spec's text *)
